@@ -65,11 +65,11 @@ func (p *verifPage) PutUint8(v uint8, offset int) {
 	}
 	p.data[offset] = v
 }
-func (p *verifPage) ReadUint8(offset int) uint8   { return p.data[offset] }
-func (p *verifPage) Sync() error                  { return nil }
-func (p *verifPage) Close() error                 { p.closed = true; return nil }
-func (p *verifPage) Closed() bool                 { return p.closed }
-func (p *verifPage) Size() int                    { return len(p.data) }
+func (p *verifPage) ReadUint8(offset int) uint8 { return p.data[offset] }
+func (p *verifPage) Sync() error                { return nil }
+func (p *verifPage) Close() error               { p.closed = true; return nil }
+func (p *verifPage) Closed() bool               { return p.closed }
+func (p *verifPage) Size() int                  { return len(p.data) }
 
 type verifFactory struct {
 	fs       *verifFS
@@ -249,5 +249,5 @@ func verifInstallFS() *verifFS {
 func verifStubNewFactory(path string, pageSize int) (page.Factory, error) {
 	return verifCurrentFS.newFactory(path, pageSize)
 }
-func verifStubMkDir(string) error { return nil }
+func verifStubMkDir(string) error                   { return nil }
 func verifStubListDir(dir string) ([]string, error) { return verifCurrentFS.listDir(dir) }
